@@ -22,7 +22,7 @@ RULE = ('Names: a grammar builds a valid name of one of the three documented for
 ASSUMPTIONS = [
     'NameSpec (vlib/models.py) is written from the function docstring and the C19 statement; empty labels inside an instance, '
     'dotted subtypes and suffixes that match only case-insensitively are UNSPECIFIED (no obligation beyond "no foreign exception")',
-    'TXT keys contain no "=" and are unique case-insensitively after encoding; each item fits 255 bytes (RFC 6763 s6)',
+    'TXT keys contain no "=" and are unique case-insensitively after encoding - except that a key may be given both as str and as bytes (same bytes): then the first occurrence counts for every reader; each item fits 255 bytes (RFC 6763 s6)',
 ]
 BUDGET = {'quick': {'examples': 8000}, 'thorough': {'examples': 120000, 'shards': 16}}
 
@@ -214,6 +214,15 @@ def txt_case(draw) -> Dict[str, Any]:
                     val = vb.hex()
                     vtype = 'bytes'
         items.append([ktype, key, vtype, val])
+        if draw(st.integers(0, 7)) == 0:
+            # the same key once more in the other Python spelling ('k' and b'k' are two dictionary keys but one TXT key): both items
+            # are encoded, and every reader of those bytes - the library included - keeps the first (RFC 6763 s6.4)
+            try:
+                twin_key = [['bytes', kb.hex()] if ktype == 'str' else ['str', kb.decode('utf-8')]][0]
+            except UnicodeDecodeError:
+                twin_key = None
+            if twin_key is not None and (twin_key[0] == 'bytes' or twin_key[1].encode('utf-8') == kb):
+                items.append(twin_key + [draw(st.sampled_from([['str', 'twin'], ['none', None], ['bytes', b'tw'.hex()], ['empty_str', '']]))][0])
     return {'kind': 'txt', 'items': items}
 
 
@@ -302,17 +311,21 @@ def check_txt(case: Dict[str, Any]) -> Dict[str, Any]:
     if parsed != norm:
         raise Violation('independent RFC 6763 parser recovers different items', {'expected': norm[:4], 'got': parsed[:4]},
                         tag='txt-independent')
-    want_read = {k: (v or None) for k, v in norm}
+    want_read: Dict[bytes, Any] = {}
+    for k, v in norm:
+        want_read.setdefault(k, v or None)        # a repeated key: the first occurrence counts
     second = ServiceInfo('_http._tcp.local.', 'x._http._tcp.local.', 80, properties=text)
     try:
         got2 = second.properties
     except Exception as e:  # noqa
         raise Violation(f'decoding TXT bytes raised {type(e).__name__}', det, tag='txt-decode-raised')
-    if got2 != want_read or list(got2) != [k for k, _ in norm]:
+    if got2 != want_read or list(got2) != list(want_read):
         raise Violation('library decode of its own TXT bytes differs from the input', {'expected': want_read, 'got': got2},
                         tag='txt-library')
-    got1 = {(k.encode('utf-8') if isinstance(k, str) else k): ((v if isinstance(v, bytes) else str(v).encode('utf-8')) or None)
-            if v is not None else None for k, v in info.properties.items()}
+    got1: Dict[bytes, Any] = {}
+    for k, v in info.properties.items():
+        got1.setdefault(k.encode('utf-8') if isinstance(k, str) else k,
+                        ((v if isinstance(v, bytes) else str(v).encode('utf-8')) or None) if v is not None else None)
     if got1 != want_read:
         raise Violation('.properties of the constructed object differs from the input', {'expected': want_read, 'got': got1},
                         tag='txt-first-object')
@@ -325,4 +338,6 @@ def check_txt(case: Dict[str, Any]) -> Dict[str, Any]:
         classes.append('txt-none-value')
     if any(v == b'' for _, v in norm):
         classes.append('txt-empty-value')
+    if len(want_read) < len(norm):
+        classes.append('txt-key-given-as-str-and-as-bytes')
     return {'nontrivial': n >= 2 and special, 'classes': classes, 'sample': {'case': case, 'text_len': len(text)}}
